@@ -49,6 +49,7 @@ type Job struct {
 	ReplayDir  string            `json:"replay_dir"`
 	Args       map[string]string `json:"args,omitempty"`
 	Race       bool              `json:"race,omitempty"`
+	Delete     []string          `json:"delete,omitempty"` // outputs (with their audit files) removed from the seeded directory
 	OmitEdge   *int              `json:"omit_edge,omitempty"`    // leave this edge of the spec unconnected
 	OmitFromStr string           `json:"omit_fromstr,omitempty"` // "proc.port": do not feed this parameter port
 	DropProc   string            `json:"drop_proc,omitempty"`    // remove a consumer process (its upstream out-port dangles)
@@ -194,6 +195,7 @@ func (r *runner) setup() {
 	if r.job.Clean {
 		cleanLeftovers(".")
 	}
+	applyDeletes(r.job.Delete)
 	for p, c := range r.job.Pre {
 		os.MkdirAll(filepath.Dir(p), 0777)
 		os.WriteFile(p, []byte(c), 0644)
